@@ -34,6 +34,7 @@ CONFIGS = {
     "n6_h1_y3": ("cH1", "cY3", "cY0", "cN6"),
 }
 QUICK = ["n3_h1_wide", "n234_h12_y5", "n5_h1_y3"]
+QUICK_STD = ["n3_h1_wide", "n234_h12_y5"]
 INVS = ["KnotsExact", "C1", "Monotone", "Bounded", "EqualsStandard", "FCRegion"]
 
 
@@ -99,7 +100,7 @@ def gen_random(rng: random.Random, n_cases: int) -> list:
     out = []
     grids = ["uniform", "nonuniform", "clustered", "decades"]
     vals = ["random", "flat-runs", "steps", "sign-changes", "huge-ratios", "smooth", "monotone", "flat-ends", "symmetric-peak", "tiny"]
-    sizes = [2, 3, 4, 5, 6, 8, 13, 50, 200, 500]
+    sizes = [2, 3, 4, 5, 6, 8, 13, 3, 5, 50, 4, 7, 200, 3, 9, 500]
     for c in range(n_cases):
         g, v = grids[c % len(grids)], vals[(c // len(grids)) % len(vals)]
         n = sizes[(c // (len(grids) * len(vals))) % len(sizes)] if c >= len(sizes) else sizes[c]
@@ -186,24 +187,40 @@ def scipy_crosscheck(ctx: Ctx, cases: list) -> None:
 
 # ----------------------------------------------------------------------------------- main
 FOUND: dict = {}
+RANK = {"raises": 0, "non-finite": 1, "not-monotone": 2, "out-of-range": 3, "knot-mismatch": 4, "c1-jump": 5, "differs-from-standard": 6}
+
+
+def key_of(clause: str, site: str, mag: str) -> str:
+    """Canonical key = WHERE the statement fails (the clauses that fail there are listed in the text):
+    flat-end-interval (end secant zero, neighbour not; incl. the extrapolation from it), end-interval,
+    interior-interval, extrapolation, knot, two-point; tiny-magnitudes = data whose secant products underflow."""
+    if clause == "raises":
+        return "pchip:raises"
+    if mag == "extreme":
+        return "pchip:tiny-magnitudes-underflow"
+    grp = {"extrapolation-flat-end": "flat-end-interval", "first-knot": "knot", "last-knot": "knot", "interior-knot": "knot",
+           "two-point-extrapolation": "two-point"}.get(site, site)
+    if clause == "c1-jump":
+        grp = "c1"
+    return f"pchip:{grp}"
 
 
 def report(ctx: Ctx, r: dict, x, y, origin: str) -> None:
     """Collect: one violation per canonical key (count + smallest example), emitted by flush()."""
     for clause, site, det in r["failures"]:
-        suffix = ":underflow" if r["mag"] == "extreme" else ""
-        key = f"pchip:{clause}:{site}{suffix}"
-        e = FOUND.setdefault(key, {"count": 0, "example": None})
+        key = key_of(clause, site, r["mag"])
+        e = FOUND.setdefault(key, {"count": 0, "example": None, "clauses": {}})
         e["count"] += 1
-        if e["example"] is None or len(x) < len(e["example"][0]):
-            e["example"] = (list(x), list(y), clause, site + suffix, det, origin)
+        e["clauses"][clause] = e["clauses"].get(clause, 0) + 1
+        if e["example"] is None or (len(x), RANK[clause]) < (len(e["example"][0]), RANK[e["example"][2]]):
+            e["example"] = (list(x), list(y), clause, site, det, origin)
 
 
 def flush(ctx: Ctx) -> None:
     for key in sorted(FOUND):
         e = FOUND[key]
         x, y, clause, site, det, origin = e["example"]
-        _emit(ctx, key, clause, site, det, x, y, f"{origin}; {e['count']} data sets in this run")
+        _emit(ctx, key, clause, site, det, x, y, f"{origin}; {e['count']} failing evaluations in this run, clauses {e['clauses']}")
     FOUND.clear()
 
 
@@ -248,6 +265,8 @@ def run(ctx: Ctx) -> None:
     for cname in names:
         c = CONFIGS[cname]
         for variant in ("standard", "code"):
+            if variant == "standard" and ctx.quick and cname not in QUICK_STD:
+                continue
             res = run_tlc("MCPchip", None, workdir=ctx.work, name=f"mc_{cname}_{variant}", cfg_text=cfg_text(c, variant, True, True),
                           coverage=(cname == names[0] and variant == "code"))
             ctx.add_tlc(res)
@@ -277,6 +296,7 @@ def run(ctx: Ctx) -> None:
         items.append((("tlc", idx), xf, yf, [xf[0] - 0.5, xf[0] - 2.0, xf[-1] + 0.5, xf[-1] + 2.0], None, idx))
     results = [r for ch in pmap(replay_chunk, chunks(items, 250)) for r in ch]
     follows = {"standard": 0, "code": 0}
+    have = {"standard": 0, "code": 0}
     differs = {"standard": None, "code": None}
     classes_seen: dict[str, int] = {}
     real_viol_sets = 0
@@ -300,6 +320,7 @@ def run(ctx: Ctx) -> None:
         if r["slopes"] is not None:
             for variant in ("standard", "code"):
                 if variant in mv:
+                    have[variant] += 1
                     md = [float(v) for v in mv[variant]]
                     ok = all(abs(a - b) <= 1e-12 * (1 + abs(b)) for a, b in zip(r["slopes"], md))
                     if ok:
@@ -310,15 +331,15 @@ def run(ctx: Ctx) -> None:
             real_viol_sets += 1
             report(ctx, r, it[1], it[2], "TLC-enumerated data set")
     ntot = len(keys)
-    mech = "code" if follows["code"] == ntot else "standard" if follows["standard"] == ntot else None
-    ctx.coverage["binding_A"] = {"data_sets": ntot, "real_matches_code_variant": follows["code"], "real_matches_standard_variant": follows["standard"],
+    mech = "code" if follows["code"] == have["code"] == ntot else "standard" if follows["standard"] == have["standard"] > 0 else None
+    ctx.coverage["binding_A"] = {"data_sets": ntot, "real_matches_code_variant": f"{follows['code']}/{have['code']}", "real_matches_standard_variant": f"{follows['standard']}/{have['standard']}",
                                  "mechanism_identified": mech, "data_sets_violating_requirement_on_real_code": real_viol_sets}
     ctx.log(f"binding A: {ntot} data sets; real slopes match code-variant on {follows['code']}, standard-variant on {follows['standard']}; "
             f"{real_viol_sets} data sets violate the requirement on the real code")
     if mech is None:
         ctx.model_drift(f"real _pchip_derivatives follows neither mechanism variant of PchipFn.tla, e.g. {differs['code'] or differs['standard']}")
     else:
-        tlc_viol = any(model_verdict[(c, mech)] for c in names)
+        tlc_viol = any(model_verdict.get((c, mech)) for c in names)
         if tlc_viol and real_viol_sets == 0:
             raise MachineryError(f"TLC reports the '{mech}' mechanism violates the requirement but the replay of the same data sets on the real code found nothing")
         if not tlc_viol and real_viol_sets:
@@ -332,7 +353,7 @@ def run(ctx: Ctx) -> None:
     if missing:
         raise MachineryError(f"vacuity: the enumerated data sets never exercise {missing}")
     # ---------------- (3) random exploration
-    n_rand = ctx.pick(600, 8000)
+    n_rand = ctx.pick(480, 8000)
     rcases = gen_random(ctx.rng, n_rand)
     scipy_crosscheck(ctx, rcases[: ctx.pick(200, 1500)])
     rres = [r for ch in pmap(replay_chunk, chunks(rcases, 100)) for r in ch]
@@ -350,5 +371,5 @@ def run(ctx: Ctx) -> None:
     ctx.coverage["rule"] = ("exhaustive: one case per TLC-enumerated data set (h, y) (non-trivial: >= 3 knots), each replayed into the real PCHIP1D; "
                             "random: one case per (grid kind, value kind, n, index)")
     ctx.coverage["exhaustive"] = True
-    ctx.coverage["violating_data_sets_per_key"] = {k: v["count"] for k, v in FOUND.items()}
+    ctx.coverage["failing_evaluations_per_key"] = {k: {"count": v["count"], "clauses": v["clauses"]} for k, v in FOUND.items()}
     flush(ctx)
